@@ -575,7 +575,12 @@ def gen_rank(r, pid, f, H, uid0, n_kernels, on_grid, jobs=1, e2e=False):
         if r.random() < 0.12:
             names = [f"k{ki} {r.choice(['Other', 'Cmpt', 'Wait Exec', 'DmaI x', 'Prep'])}"]
         else:
-            names = [f"k{ki} {p}" for p in PH if r.random() < 0.8] or [f"k{ki} Cmpt Exec"]
+            # kernel stems may mention a DMA keyword glued into the kernel's own name: the phase is the suffix alone
+            stem = r.choice([f"k{ki}"] * 3 + [f"fusedDmaI_k{ki}", f"stagedDmaO_k{ki}", f"k{ki}_CmptPrep"])
+            # (the repository's own two classifiers only agree on such a stem for the Cmpt phases: a glued stem with a
+            # DMA suffix aborts in categorize.get_event_class on the unchanged tree, so it is not a well-formed name)
+            phs = PH if stem.startswith("k") and "_" not in stem else ["Cmpt Prep", "Cmpt Exec"]
+            names = [f"{stem} {p}" for p in phs if r.random() < 0.8] or [f"{stem} Cmpt Exec"]
         for nm in names:
             evs.append(mk_dev(uid, pid, nm, cs, f, H, r, job=r.randrange(jobs)))
             uid += 1
